@@ -311,6 +311,65 @@ theorem greville_raw_in_domain (t : ℕ → K) (kv : List K) (ht : ∀ i, getK k
   rw [ht]
   exact ⟨hmono _ _ (Nat.zero_le _) (by omega), hmono _ _ (by omega) (by omega)⟩
 
+/-! ## uniform refinement -/
+
+theorem mem_meshAux : ∀ (xs : List K) (prev x : K), x ∈ prev :: meshAux prev xs ↔ x ∈ prev :: xs := by
+  intro xs
+  induction xs with
+  | nil => intro prev x; simp [meshAux]
+  | cons y ys ih =>
+    intro prev x
+    by_cases hy : y = prev
+    · subst hy
+      simp only [meshAux, if_true]
+      rw [ih y x]; simp
+    · simp only [meshAux, hy, if_false, List.mem_cons]
+      have := ih y x
+      simp only [List.mem_cons] at this
+      rw [this]
+
+theorem mem_mesh (kv : List K) (x : K) : x ∈ mesh kv ↔ x ∈ kv := by
+  cases kv with
+  | nil => simp [mesh]
+  | cons a l => simpa [mesh] using mem_meshAux l a x
+
+/-- **uniform refinement** of a non-decreasing, non-empty knot vector: the result is non-decreasing,
+is the multiset union of the old knots and the span midpoints, has exactly twice as many non-empty
+spans, and every old knot keeps its multiplicity. -/
+theorem refine_uniform_spec (kv : List K) (h : kv.Pairwise (· ≤ ·)) (hne : kv ≠ []) :
+    (refineUniform kv).Pairwise (· ≤ ·) ∧
+    (refineUniform kv).Perm (kv ++ midpoints (mesh kv)) ∧
+    numspans (refineUniform kv) = 2 * numspans kv ∧
+    ∀ x ∈ kv, (refineUniform kv).count x = kv.count x := by
+  have hs : (refineUniform kv).Pairwise (· ≤ ·) := sortL_sorted _
+  have hp : (refineUniform kv).Perm (kv ++ midpoints (mesh kv)) := sortL_perm _
+  have hmesh := mesh_strictly_increasing kv h
+  obtain ⟨hml, hmp, hmnot, _⟩ := midpoints_props (mesh kv) hmesh
+  have hnotkv : ∀ m ∈ midpoints (mesh kv), m ∉ kv := fun m hm hk => hmnot m hm ((mem_mesh kv m).mpr hk)
+  refine ⟨hs, hp, ?_, ?_⟩
+  · unfold numspans
+    rw [mesh_card _ hs, List.toFinset_eq_of_perm _ _ hp, List.toFinset_append]
+    have hdisj : Disjoint kv.toFinset (midpoints (mesh kv)).toFinset := by
+      rw [Finset.disjoint_left]
+      intro x hx hm
+      exact hnotkv x (List.mem_toFinset.mp hm) (List.mem_toFinset.mp hx)
+    rw [Finset.card_union_of_disjoint hdisj, ← mesh_card kv h]
+    have hnd : (midpoints (mesh kv)).Nodup := List.Pairwise.imp (fun hlt => ne_of_lt hlt) hmp
+    rw [List.toFinset_card_of_nodup hnd, hml]
+    have hpos : 1 ≤ (mesh kv).length := by
+      cases kv with
+      | nil => exact absurd rfl hne
+      | cons a l => simp [mesh]
+    omega
+  · intro x hx
+    rw [hp.count_eq, List.count_append]
+    have : (midpoints (mesh kv)).count x = 0 :=
+      List.count_eq_zero_of_not_mem (fun hm => hnotkv x hm hx)
+    omega
+
+example : refineUniform ([0, 0, 0, 1, 1, 3, 3, 3] : List ℚ) = [0, 0, 0, 1/2, 1, 1, 2, 3, 3, 3] := by
+  decide +kernel
+
 /-! ## equality -/
 
 theorem absK_nonneg (x : K) : 0 ≤ absK x := by
